@@ -4,6 +4,7 @@ pub mod domains;
 pub mod pathlist;
 pub mod selftest;
 pub mod syntax;
+pub mod wmethod;
 
 use crate::fam::{Family, Kind};
 use std::collections::BTreeMap;
